@@ -160,6 +160,21 @@ func queueAlphabet(cfg histCfg, w *World) []histAnswer {
 			fake.Msg = &m
 			t.Enqueue(t.BMC.Respond(&fake, 0xC0, nil), "stray:busy")
 		}}, Class: clsNothing},
+		// ... and the caller's context ends while the library waits before retrying
+		{Answer: env.Answer{Name: "stray-busy-reply-of-another-command-then-context-ends-in-backoff", Apply: func(t *env.Transport, rx *ref.Rx) {
+			if rx == nil || rx.Msg == nil {
+				return
+			}
+			fake := *rx
+			m := *rx.Msg
+			m.NetFn, m.Cmd = 0x06, 0x01
+			if rx.Msg.NetFn == 0x06 && rx.Msg.Cmd == 0x01 {
+				m.Cmd = 0x37
+			}
+			fake.Msg = &m
+			t.Enqueue(t.BMC.Respond(&fake, 0xC0, nil), "stray:busy")
+			w.CancelAtNextSleep = true
+		}}, Class: clsExpire},
 		{Answer: env.LostReply(), Class: clsNothing},
 		// ordinary retry causes mixed with the socket events above
 		{Answer: env.Code("node-busy", 0xC0), Class: clsTemporary, Code: 0xC0},
